@@ -55,7 +55,7 @@ COMPONENTS = {
 }
 ASSUMPTIONS = ['the broker preserves the order of broadcasts of one publisher', 'FIFO ready queue',
                'only the first response to a duplicated request reaches the caller']
-EXPECTED_COUNTERS = ['comm:loop_communicator', 'flavour:quiescent', 'flavour:timed', 'flavour:bfault', 'flavour:subtimeout', 'msg:rpc', 'msg:bcast',
+EXPECTED_COUNTERS = ['hook_fault:configured', 'restored_process:rest:pickle', 'restored_process:created:yaml', 'comm:loop_communicator', 'flavour:quiescent', 'flavour:timed', 'flavour:bfault', 'flavour:subtimeout', 'msg:rpc', 'msg:bcast',
                      'msg:thread_controller', 'net:duplicated', 'net:reordered', 'net:delayed', 'probe:handled_while_stepping',
                      'probe:late_message', 'probe:reply_cancelled', 'bfault:ConnectionClosed', 'bfault:ChannelInvalidStateError',
                      'bfault:TimeoutError']
